@@ -43,6 +43,10 @@ func main() {
 			"a parked callback of each kind (event-based) while ~30 operations on all registries (register, re-register, unregister, list, dispatch of other entries, twice) must each complete within 5 s; " +
 			"the same for the notification handlers of SSEServer (raw SSE peer) and StdioServer (in-process pipes): 8 inner operations and a parked handler each; " +
 			"non-trivial = the inner operation replaced or removed a live entry. " +
+			"window between look-up and use (reentrant sub-process): the tool manager's method-name modifier, a user callback that runs after the entry was copied out and before its handler is called, " +
+			"unregisters / re-registers / unregisters and re-registers the very tool being called (5 variants): the call answers with the version it looked up, never dies (registry:call-broken-by-unregister-in-window:<variant>), history diffed with the model; " +
+			"call-vs-unregister (sub-process): 4 callers x 400 tools/call (thorough x6) of tool x and of a tool registered throughout on 4 sessions against 2 goroutines looping UnregisterTools(x); RegisterTool(x, next version), the window widened by a yielding modifier: " +
+			"every call of x = found (a registered version) or not-found, the other tool always found, no error / dropped connection (registry:call-failed-while-unregistering:tool); non-trivial as far as both outcomes occur. " +
 			"malformed (one sub-process, one fresh server per case): 59 classes of requests that must be refused (tools/call, prompts/get, resources/read: params array / string / number / null / missing, name or uri missing / of the wrong type / empty / unknown, " +
 			"arguments array / string / number / bool on two registered tools, on a registered prompt and resource; list requests with non-object params; subscribe, completion, unknown method) on a server with live entries, " +
 			"sent 4 times with 24 registrations / re-registrations / unregistrations / lists / calls over all five registries in between: every request and every operation must return within 5 s " +
